@@ -47,7 +47,7 @@ SUFF = [None, 'gz', 'bz2', 'lzma', 'xz']
 
 def generate(rng, tier, idx):
     if rng.random() < 0.45:
-        g = GT.gen_tree(rng, {'top': 'Manifest', 'p_conflict': 0.05})
+        g = GT.gen_tree(rng, {'top': 'Manifest', 'p_conflict': 0.05, 'p_style': 0.12})
         info = g['info']
         subs = [m for m in info['manifests'] if m != 'Manifest']
         assigns = []
